@@ -1,7 +1,10 @@
 //! Selection strategies for choosing healthy resources.
 
 use crate::{HealthCheckedContext, HealthStatus};
+#[cfg(not(feature = "verif-hooks"))]
 use std::sync::atomic::{AtomicUsize, Ordering};
+#[cfg(feature = "verif-hooks")]
+use tower_resilience_core::verif::atomic::{AtomicUsize, Ordering};
 use std::sync::Arc;
 
 /// Type alias for custom selector function
